@@ -39,6 +39,21 @@ def put(s, name, body):
     return s[:s.index(a) + len(a)] + "\n" + body + "\n" + s[s.index(b):]
 t3 = "\n".join("* " + x[len("fixed: "):] for x in kf.get("fixed", []))
 t4 = "\n".join(f"* **{f['property']} `{f['key']}`** — {f['what']}" + (f" (Lean: `{f['lean']}`)" if f.get("lean") else "") for f in kf["findings"])
-s = put(s, "PROPS", t1); s = put(s, "SEEDED", t2); s = put(s, "FIXED", t3); s = put(s, "OPEN", t4)
+rows = ["| id | kind | change | properties checked | quiet | obligation-only (no failing input) | concrete replay |", "|---|---|---|---|---|---|---|"]
+nq = no = nc = 0
+for d in sorted(glob.glob(f"{V}/benign/*/")):
+    try:
+        r = json.load(open(d + "result.json"))
+    except Exception:
+        continue
+    m = r["meta"]
+    q = [p for p, v in r["results"].items() if v["kind"] == "quiet"]
+    o = [p for p, v in r["results"].items() if v["kind"] == "obligation-only"]
+    c = [p for p, v in r["results"].items() if v["kind"] == "CONCRETE"]
+    nq += len(q); no += len(o); nc += len(c)
+    rows.append(f"| {r['id']} | {m['kind']} | `{', '.join(m['files'])}`: {m['summary'][:120].replace('|', '/')} | {len(r['results'])} | {len(q)} | {', '.join(o) or '–'} | {', '.join(c) or '–'} |")
+rows.append(f"| **total** | | | {nq + no + nc} | {nq} | {no} | {nc} |")
+t5 = "\n".join(rows)
+s = put(s, "PROPS", t1); s = put(s, "SEEDED", t2); s = put(s, "FIXED", t3); s = put(s, "OPEN", t4); s = put(s, "BENIGN", t5)
 open(f"{V}/DESIGN.md", "w").write(s)
 print("tables regenerated")
